@@ -318,7 +318,9 @@ def write_evidence(ctx: Ctx, level: str = "proof") -> None:
         "known_findings_reported": ctx.known_hits,
         "broken_obligations": ctx.broken,
     }
-    d = os.path.join(VERIF, "evidence")
+    # evidence describes runs against /repo itself; a run pointed at another tree (mutation experiments)
+    # must not overwrite it
+    d = os.path.join(VERIF, "evidence" if os.path.realpath(REPO) == "/repo" else "evidence_other_tree")
     os.makedirs(d, exist_ok=True)
     tmp = os.path.join(d, f".{ctx.prop}.json.tmp")
     with open(tmp, "w") as f:
